@@ -321,8 +321,8 @@ def run(chk):
         if par is not None and par.get("name") == "save_function_params":
             stored += 1
     r10.ob("every take_saves() result is put on a saved-argument list (%d call sites)" % len(takes), bool(takes) and stored == len({(f["q"], n["l"]) for f, n in takes}) or stored == len(takes), "", "", "take_saves result dropped at some call site")
-    r10.anchor(nsites >= 2, "sites that shrink Conversion_Saves::saves (found %d)" % nsites)
-    r10.require(3, "obligations")
+    r10.anchor(nsites >= 1, "sites that shrink Conversion_Saves::saves (found %d)" % nsites)
+    r10.require(2, "obligations")
 
     # ------------------------------------------------------------------ R11.8
     r8 = chk.rule("R11.8", "the evaluator's scope guard pushes a new saved-argument list only after the pending conversion temporaries were attached to the current one",
@@ -475,6 +475,7 @@ def scope_release(chk, prog):
                   "an object is destroyed by the time its last referrer is gone: leaving a block, loop iteration or function by break, return or an exception does not leave its scope behind")
     sub = core.Check("C09", tier=chk.tier)
     sub.prog = prog
+    sub.nested = True
     c09.run(sub)
     for r in sub.rules:
         if r.rid not in ("R9.1", "R9.2", "R9.3"):
